@@ -33,6 +33,13 @@ impl<'t> State<'t> {
     pub fn dump_context(&self) -> (r: Value) ensures r == self.dump_spec() { unimplemented!() }
 }
 impl<'tera> VirtualMachine<'tera> {
+    /// include: appends to its output only (or fails leaving a prefix); the includer's state is read-only
+    #[verifier::external_body]
+    pub fn render_include(&self, name: &str, state: &State<'tera>, output: &mut VxWriter) -> (r: TeraResult<()>)
+        ensures old(output).bytes@.is_prefix_of(final(output).bytes@)
+    { unimplemented!() }
+    #[verifier::external_body]
+    pub fn report_target(&self, chunk: &Chunk) -> (&'tera str, &'tera str) { unimplemented!() }
     #[verifier::external_body]
     pub fn rendering_error(&self, msg: String, chunk: &Chunk, span: &Span) -> Error { unimplemented!() }
     #[verifier::external_body]
